@@ -117,6 +117,11 @@ struct Transport::Impl
   {
     std::condition_variable cv;
     bool done{false};
+    // Set (under syncMutex) by a connectSync caller that gave up on this op — timeout or
+    // teardown — and will never look at `result` again. A completion that arrives afterwards
+    // must NOT erase the pendingConnects entry: the entry has to survive until the session's
+    // onClose so that close stays suppressed (the caller never received this sid).
+    bool abandoned{false};
     ConnectResult result{ConnectResult::err(TransportErrorInfo{TransportError::Timeout, "pending"})};
   };
   std::mutex syncMutex;
@@ -318,6 +323,14 @@ struct Transport::Impl
           if (it != pendingConnects.end())
           {
             op = it->second;
+            if (op->abandoned)
+            {
+              // Late success for a connectSync that already timed out / was torn down.
+              // Nobody will receive this sid: keep the entry so the close that follows
+              // (the caller's engine->close, a peer reset, shutdown) is still suppressed,
+              // and do not fire the global onConnect either.
+              return;
+            }
             op->result = ConnectResult::ok(sid);
             op->done = true;
             pendingConnects.erase(it);
@@ -831,6 +844,7 @@ inline ConnectResult Transport::connectSync(const std::string &host, std::uint16
     // Woken by teardown. Do NOT erase pendingConnects (teardown owns and is
     // iterating the maps, L-NEW-1) and do NOT touch engine->close (engine is
     // being torn down, M-1). The guard decrements activeConnects on return.
+    op->abandoned = true; // a completion racing the shutdown must not un-suppress the close
     return ConnectResult::err(
       TransportErrorInfo{TransportError::ShuttingDown, "transport shutting down"});
   }
@@ -853,6 +867,7 @@ inline ConnectResult Transport::connectSync(const std::string &host, std::uint16
   // returning so connectGuard's dtor (the activeConnects decrement, a syncMutex-
   // guarded mutation) runs UNDER the lock — it destructs before `lk` because it
   // is declared after it.
+  op->abandoned = true; // still under syncMutex: a late onConnect must keep the entry (see SyncConnectOp)
   lk.unlock();
   _impl->engine->close(sid);
   lk.lock();
